@@ -35,10 +35,10 @@ def run(root, tag, seed, n_hist, trace_path, concurrent_every=3):
                     if k == 'new':
                         n += 1; src = f'n{n}.c'; open(f'{w}/{src}', 'w').write(f'int f{n}(void){{return {n};}}\n')
                         batch.append([cc, '-c', src, '-o', src + '.o']); newly.append(src)
-                        ops.append('forced' if recache else ('missro' if readonly else 'miss')); expected_runs += 1
+                        ops.append(('forcedro' if readonly else 'forced') if recache else ('missro' if readonly else 'miss')); expected_runs += 1
                     elif k == 'repeat':
                         src = rng.choice(known); batch.append([cc, '-c', src, '-o', f'{src}.{j}.o'])
-                        if recache: ops.append('forced'); expected_runs += 1
+                        if recache: ops.append('forcedro' if readonly else 'forced'); expected_runs += 1
                         elif readonly: ops.append('missro'); expected_runs += 1
                         else: ops.append('hit')
                     elif k == 'fatal':
